@@ -576,6 +576,8 @@ type FuncContract struct {
 	CallDepth int
 	Timeout   int
 	Notes     []string
+	Dispatch  []string // interface methods whose implementer contracts are imported as axioms
+	NoInline  []string // callees that must not be inlined (havoc instead)
 }
 
 type AnchoredClause struct {
@@ -639,7 +641,7 @@ var clauseKeywords = map[string]bool{
 	"props": true, "arith": true, "requires": true, "ensures": true, "loop": true,
 	"wraps": true, "inline": true, "pure": true, "trusted": true, "modifies": true,
 	"results": true, "params": true, "invariant": true, "decreases": true, "bag": true, "assert": true, "assume": true, "ghost": true, "safety": true,
-	"nosafety": true, "known": true, "note": true, "timeout": true, "calldepth": true,
+	"nosafety": true, "known": true, "note": true, "timeout": true, "calldepth": true, "dispatch": true, "noinline": true,
 }
 
 // parseContractLines parses the `//@` lines of one file. pkgPath is the Go
@@ -807,6 +809,10 @@ func (cs *ContractSet) parseContractLines(file, pkgPath string, lines []string, 
 				fmt.Sscan(rest, &cur.Timeout)
 			case "calldepth":
 				fmt.Sscan(rest, &cur.CallDepth)
+			case "dispatch":
+				cur.Dispatch = append(cur.Dispatch, strings.Fields(strings.ReplaceAll(rest, ",", " "))...)
+			case "noinline":
+				cur.NoInline = append(cur.NoInline, strings.Fields(strings.ReplaceAll(rest, ",", " "))...)
 			case "assert", "assume", "ghost":
 				// assert before|after "anchor" expr
 				when, r2 := splitWord(rest)
